@@ -11,7 +11,9 @@ LEAN_MODS = ["Cte.Props.C18"]
 HARNESS = "c18"
 N = {"quick": 400, "thorough": 6000}
 CORRESPONDENCES = ["build_blocks(text) = Bdl.buildBlocks text: accept/reject, and per block type, name, parent and every attribute value "
-                   "(numbers as the f32 nearest to the written decimal)"]
+                   "(numbers as the f32 nearest to the written decimal)",
+                   "kyg::parse(text) = Aux.kygParse text: accept/reject, K, every window / wall / thermal-bridge row, insolation factors, gains lines",
+                   "tbl::parse(file) = Aux.tblParse text: accept/reject, every element and space row"]
 GENERATED_OBLIGATIONS = ["Cte/Gen/BlockTypes.lean regenerated from hulc/src/bdl/blocks.rs (type table, parent classes, line filters, markers)"]
 SPEC_FAMILIES = ()
 RULE = ("the 12 BDL sections of the shipped .ctehexml files, the 56 legacy .cte files and the embedded catalogue as they are; the same files "
@@ -124,7 +126,122 @@ def first_diff(a, b):
     return None
 
 
+TBL_TYPES = {"0": "EXTWALL", "1": "WINDOW", "2": "DOOR", "-2": "ADBWALL", "-3": "GNDWALL", "-4": "INTWALL", "-5": "INTFLOOR"}
+
+
+def mnum(n):
+    """model number -> the implementation's representation (float | 'inf' | '-inf' | 'nan')"""
+    return None if n is None else model_num(n)
+
+
+def feq(a, b):
+    if isinstance(a, float) and isinstance(b, (int, float)):
+        return a == float(b) and (str(a)[0] == "-") == (str(float(b))[0] == "-") or (a == 0 == b)
+    return a == b
+
+
+def last_by_name(rows):
+    d = {}
+    for r in rows:
+        d[r["name"]] = r
+    return d
+
+
+def compare_kyg(case, out):
+    imp = case["impl"]
+    fam = CORRESPONDENCES[1]
+    if "panic" in imp:
+        return [(fam, "implementation panics")]
+    if ("ok" in imp) != ("ok" in out):
+        return [(fam, f"implementation {'accepts' if 'ok' in imp else 'rejects (' + imp.get('err', '')[:60] + ')'}, model {'accepts' if 'ok' in out else 'rejects'}")]
+    if "ok" not in imp:
+        return []
+    a, b = imp["ok"], out["ok"]
+    _stats["kyg_rows_compared"] += len(a["windows"]) + len(a["walls"]) + len(a["tbs"])
+    if not feq(mnum(b["k"]) if b["k"] is not None else 0.0, a["k"]):
+        return [(fam, f"K: implementation {a['k']}, model {mnum(b['k'])}")]
+    if [mnum(x) for x in b["hfactors"]] != a["hfactors"]:
+        return [(fam, f"insolation factors: implementation {a['hfactors']}, model {[mnum(x) for x in b['hfactors']]}")]
+    gains = last_by_name(b["gains"])
+    mw = last_by_name(b["windows"])
+    if sorted(mw) != sorted(w["name"] for w in a["windows"]):
+        return [(fam, f"window names differ: {sorted(mw)[:3]} vs {[w['name'] for w in a['windows']][:3]}")]
+    for w in a["windows"]:
+        m = mw[w["name"]]
+        ff = mnum(m["ff_pct"])
+        exp = {"orientation": m["orientation"], "a": mnum(m["a"]), "u": mnum(m["u"])}
+        for k, v in exp.items():
+            if not feq(v, w[k]):
+                return [(fam, f"window {w['name']}: {k} implementation {w[k]}, model {v}")]
+        if isinstance(ff, float) and isinstance(w["ff"], (int, float)) and abs(ff / 100.0 - w["ff"]) > 1e-6 * max(1.0, abs(ff)):
+            return [(fam, f"window {w['name']}: frame fraction implementation {w['ff']}, model {ff}/100")]
+        mex = None if m["extra"] is None else [mnum(x) for x in m["extra"][:4]] + [m["extra"][4]]
+        if (mex is None) != (w["extra"] is None) or (mex is not None and any(not feq(x, y) for x, y in zip(mex, w["extra"]))):
+            return [(fam, f"window {w['name']}: extra columns implementation {w['extra']}, model {mex}")]
+        g = gains.get(w["name"])
+        az = mnum(g["azimuth"]) if g else 0.0
+        if not feq(az, w["azimuth_n"]):
+            return [(fam, f"window {w['name']}: azimuth implementation {w['azimuth_n']}, model {az}")]
+        if g:
+            h3, ht = mnum(g["h3"]), mnum(g["htot"])
+            if isinstance(h3, float) and isinstance(ht, float) and ht != 0 and isinstance(w["fshobst"], (int, float)):
+                if abs(h3 / ht - w["fshobst"]) > 1e-5 * max(1.0, abs(h3 / ht)):
+                    return [(fam, f"window {w['name']}: obstruction factor implementation {w['fshobst']}, model {h3}/{ht}")]
+    for coll, keys in (("walls", ("a", "u", "btrx")), ("tbs", ("l", "psi"))):
+        mm = last_by_name(b[coll])
+        if sorted(mm) != sorted(x["name"] for x in a[coll]):
+            return [(fam, f"{coll}: names differ")]
+        for x in a[coll]:
+            m = mm[x["name"]]
+            for k in keys:
+                if not feq(mnum(m[k]), x[k]):
+                    return [(fam, f"{coll} {x['name']}: {k} implementation {x[k]}, model {mnum(m[k])}")]
+            if coll == "walls" and m["extra"] != x["extra"]:
+                return [(fam, f"wall {x['name']}: extra columns implementation {x['extra']}, model {m['extra']}")]
+            if coll == "tbs" and m["sisdim"] != x["sisdim"]:
+                return [(fam, f"thermal bridge {x['name']}: sisdim implementation {x['sisdim']!r}, model {m['sisdim']!r}")]
+    return []
+
+
+def compare_tbl(case, out):
+    imp = case["impl"]
+    fam = CORRESPONDENCES[2]
+    if "panic" in imp:
+        return [(fam, "implementation panics")]
+    if ("ok" in imp) != ("ok" in out):
+        return [(fam, f"implementation {'accepts' if 'ok' in imp else 'rejects (' + imp.get('err', '')[:60] + ')'}, model {'accepts' if 'ok' in out else 'rejects (' + str(out.get('err')) + ')'}")]
+    if "ok" not in imp:
+        return []
+    a, b = imp["ok"], out["ok"]
+    _stats["tbl_rows_compared"] += len(a["elements"]) + len(a["spaces"])
+    me = {e["key"]: e for e in b["elements"]}
+    if sorted(me) != sorted(e["key"] for e in a["elements"]):
+        return [(fam, "element keys differ")]
+    for e in a["elements"]:
+        m = me[e["key"]]
+        got = (m["name"], [mnum(x) for x in m["nums"]], TBL_TYPES.get(m["type"]), m["id_surf"], m["id_space"])
+        want = (e["name"], e["nums"], e["type"], e["id_surf"], e["id_space"])
+        if got[0] != want[0] or any(not feq(x, y) for x, y in zip(got[1], want[1])) or got[2:] != want[2:]:
+            return [(fam, f"element {e['key']}: implementation {want}, model {got}")]
+    ms = {e["key"]: e for e in b["spaces"]}
+    if sorted(ms) != sorted(e["key"] for e in a["spaces"]):
+        return [(fam, "space keys differ")]
+    for e in a["spaces"]:
+        m = ms[e["key"]]
+        got = (m["name"], m["id_space"], m["mult"], mnum(m["area"]), mnum(m["qint"]))
+        want = (e["name"], e["id_space"], e["mult"], e["area"], e["qint"])
+        if got[:3] != want[:3] or not feq(got[3], want[3]) or not feq(got[4], want[4]):
+            return [(fam, f"space {e['key']}: implementation {want}, model {got}")]
+    return []
+
+
 def compare(case, out):
+    if case.get("op") == "kyg":
+        _stats["family:" + case["kind"]] += 1
+        return compare_kyg(case, out)
+    if case.get("op") == "tbl":
+        _stats["family:" + case["kind"]] += 1
+        return compare_tbl(case, out)
     if case.get("op") != "bdlblocks":
         return []
     imp = case["impl"]
@@ -175,7 +292,8 @@ def branch(case, out):
 
 
 def sample(case, out):
-    return {"label": case["label"], "kind": case["kind"], "blocks": len(case["impl"].get("ok", [])), "layout": case.get("layout")}
+    ok = case["impl"].get("ok", [])
+    return {"label": case["label"], "kind": case["kind"], "blocks": len(ok) if isinstance(ok, list) else None, "layout": case.get("layout")}
 
 
 def extra_coverage():
